@@ -64,12 +64,12 @@ SPECS = {
         "nested-loop join, names with the documented suffix rule, every input column probed through its original reference",
     ),
     "C07": dict(
-        fams=[("union", 1)],
+        fams=[("union", 5), ("subq_edges", 1)],
         owns=("value:", "exc:", "accept:", "excls:"),
         quick=1000,
         thorough=3500,
         rule="unions of 2-3 tables with permuted column order, hidden columns, duplicate rows, nullable columns, empty sides, chains, "
-        "verbs before and after; rows compared with REF's bag / set union by column name",
+        "verbs before and after, operands that are subqueries or unions themselves; rows compared with REF's bag / set union by column name",
     ),
     "C09": dict(
         fams=[("refs", 4), ("general", 1), ("join", 1), ("reroot", 1)],
